@@ -126,9 +126,20 @@ type c10Event struct {
 }
 
 type c10Rec struct {
-	mu  sync.Mutex
-	evs []c10Event
-	wg  sync.WaitGroup
+	mu      sync.Mutex
+	evs     []c10Event
+	wg      sync.WaitGroup
+	streams map[string][]string // "info#timing" -> what each fully reading handler received (chunks concatenated)
+}
+
+func (r *c10Rec) addStream(info string, t int, payload string) {
+	r.mu.Lock()
+	if r.streams == nil {
+		r.streams = map[string][]string{}
+	}
+	k := fmt.Sprintf("%s#%d", info, t)
+	r.streams[k] = append(r.streams[k], payload)
+	r.mu.Unlock()
 }
 
 func (r *c10Rec) add(e c10Event) {
@@ -178,10 +189,18 @@ func c10Stream[T any](h *c10Handler, t int, info *callbacks.RunInfo, sr *schema.
 		go func() {
 			defer h.rec.wg.Done()
 			defer sr.Close()
+			var sb strings.Builder
 			for {
-				if _, err := sr.Recv(); err != nil {
+				v, err := sr.Recv()
+				if err != nil {
+					if err == io.EOF {
+						h.rec.addStream(c10Info(info), t, sb.String())
+					} else {
+						h.rec.addStream(c10Info(info), t, "!err:"+err.Error())
+					}
 					return
 				}
+				sb.WriteString(fmt.Sprint(v))
 			}
 		}()
 	}
@@ -560,6 +579,8 @@ type c10Obs struct {
 	Out     string              `json:"out"`
 	RefOut  string              `json:"refOut"`
 	Barrier bool                `json:"barrierTimedOut,omitempty"`
+	// "info#timing" -> distinct payloads the handlers of that unit saw at that timing
+	Payloads map[string][]string `json:"payloads,omitempty"`
 }
 
 func c10CallOpts(c *c10Compose, rec *c10Rec) []compose.Option {
@@ -769,8 +790,28 @@ func c10RunCompose(c *c10Compose) *c10Obs {
 		o.RefOut = "class:" + refClass + ":" + refOut
 	}
 	rec.mu.Lock()
+	o.Payloads = map[string][]string{}
+	addP := func(k, p string) {
+		for _, q := range o.Payloads[k] {
+			if q == p {
+				return
+			}
+		}
+		o.Payloads[k] = append(o.Payloads[k], p)
+	}
 	for _, e := range rec.evs {
 		o.Units[e.Info] = append(o.Units[e.Info], [2]int{e.H, e.T})
+		if e.T == 0 || e.T == 1 {
+			addP(fmt.Sprintf("%s#%d", e.Info, e.T), e.Payload)
+		}
+	}
+	for k, ps := range rec.streams {
+		for _, p := range ps {
+			addP(k, p)
+		}
+	}
+	for k := range o.Payloads {
+		sort.Strings(o.Payloads[k])
 	}
 	rec.mu.Unlock()
 	return o
@@ -926,6 +967,35 @@ func c10OneCompose(ctx *vh.Ctx, c *c10Compose) error {
 	for info, evs := range impl.Units {
 		if !seen[info] && len(evs) > 0 {
 			dis("unknown-unit", fmt.Sprintf("callbacks delivered with run info %q, which no unit of the run has: %v", info, evs))
+		}
+	}
+	// payloads: all handlers of one unit see the same payload at one timing, and for the leaf
+	// units whose input / output the harness knows, it is what the unit consumed / produced
+	for k, ps := range impl.Payloads {
+		if len(ps) > 1 {
+			dis("payload-differs", fmt.Sprintf("handlers of %s saw different payloads: %q", k, ps))
+		}
+	}
+	for _, u := range c.Units {
+		if len(u.Path) == 0 {
+			continue
+		}
+		key := u.Path[len(u.Path)-1]
+		var in, out string
+		switch {
+		case u.Tool:
+			idx := strings.TrimPrefix(key, "t")
+			in = "a" + map[string]string{"1": "0", "2": "1"}[idx]
+			out = key + "(" + in + ")"
+		case strings.HasSuffix(u.Info, "|Lambda") && key != "join" && c.Family == "par":
+			in, out = "x", "x>"+key
+		default:
+			continue
+		}
+		for t, want := range map[int]string{0: in, 3: in, 1: out, 4: out} {
+			if ps, ok := impl.Payloads[fmt.Sprintf("%s#%d", u.Info, t)]; ok && (len(ps) != 1 || ps[0] != want) {
+				dis("payload", fmt.Sprintf("unit %q timing %d: handlers saw payload %q, the unit consumed/produced %q", u.Info, t, ps, want))
+			}
 		}
 	}
 	// direct predicate, independent of the oracle: per unit, every unfiltered handler that got a
@@ -1496,19 +1566,19 @@ func runC10(ctx *vh.Ctx) error {
 			}
 		}
 	}
-	nApi, nCopies, nCompose := ctx.N(1500, 40000), ctx.N(300, 5000), ctx.N(1200, 30000)
-	for i := 0; i < nApi && ctx.TimeLeft(); i++ {
-		if err := c10OneApi(ctx, c10GenApi(ctx.Rng)); err != nil {
-			return err
+	// kinds interleaved (4 api : 1 copies : 5 compose) so that a time budget cuts all of them evenly
+	n := ctx.N(6000, 120000)
+	for i := 0; i < n && ctx.TimeLeft(); i++ {
+		var err error
+		switch k := i % 10; {
+		case k < 4:
+			err = c10OneApi(ctx, c10GenApi(ctx.Rng))
+		case k == 4:
+			err = c10OneCopies(ctx, c10GenCopies(ctx.Rng))
+		default:
+			err = c10OneCompose(ctx, c10GenCompose(ctx.Rng))
 		}
-	}
-	for i := 0; i < nCopies && ctx.TimeLeft(); i++ {
-		if err := c10OneCopies(ctx, c10GenCopies(ctx.Rng)); err != nil {
-			return err
-		}
-	}
-	for i := 0; i < nCompose && ctx.TimeLeft(); i++ {
-		if err := c10OneCompose(ctx, c10GenCompose(ctx.Rng)); err != nil {
+		if err != nil {
 			return err
 		}
 	}
